@@ -683,7 +683,25 @@ class ExprBuilder:
     def call(self, body, bi, t, depth):
         c = Call(body, bi, t)
         args = tuple(self.operand(body, a, depth) for a in c.args)
-        return ("call", c.name, args, (body.cdef, bi, c.loc), c)
+        name = c.name
+        # a trait-method call that resolves to an impl in this crate is named by that impl: it must not be
+        # mistaken for the (transparent) std trait method of the same name (Into::into, From::from, Clone::clone ..)
+        if c.resolved and c.resolved in self.facts.by_cdef and name in TRANSPARENT_CALLS and not lib_derived(self.facts.by_cdef[c.resolved]):
+            name = c.resolved
+        elif name == "std::convert::Into::into":
+            # x.into() through the blanket impl: if the crate has `impl From<T> for U`, that is what runs
+            m = re.match(r"^<(.+) as std::convert::Into<(.+)>>::into$", c.full)
+            if m:
+                cand = "<%s as std::convert::From<%s>>::from" % (m.group(2), m.group(1))
+                if cand in self.facts.by_cdef and not lib_derived(self.facts.by_cdef[cand]):
+                    name = cand
+                    c.resolved = cand
+        return ("call", name, args, (body.cdef, bi, c.loc), c)
+
+
+def lib_derived(body):
+    """body generated by #[derive(..)] (e.g. derived Clone): behaves like the std method"""
+    return derive_generated(body.span)
 
 
 def mkphi(alts):
